@@ -22,9 +22,12 @@ PointOf(box)     == [k \in 1..Len(box) |-> box[k][1]]
 SubBox(b1, b2)   == /\ Len(b1) = Len(b2)
                     /\ \A k \in 1..Len(b1) : b2[k][1] <= b1[k][1] /\ b1[k][2] <= b2[k][2]
 InBox(t, box)    == \A k \in 1..Len(box) : box[k][1] <= t[k] /\ t[k] <= box[k][2]
+\* number of points of a box, saturated at 10^6 (TLC integers are 32-bit)
 BoxSize(box)     == LET RECURSIVE P(_)
                         P(k) == IF k > Len(box) THEN 1
-                                ELSE (IF box[k][2] < box[k][1] THEN 0 ELSE box[k][2] - box[k][1] + 1) * P(k + 1)
+                                ELSE LET w == IF box[k][2] < box[k][1] THEN 0 ELSE box[k][2] - box[k][1] + 1
+                                         r == P(k + 1)
+                                     IN IF w = 0 \/ r = 0 THEN 0 ELSE IF w > 1000000 \div r THEN 1000000 ELSE w * r
                     IN P(1)
 
 RECURSIVE TuplesOf(_)
